@@ -405,8 +405,11 @@ func (g *gen) poseidonDomain() {
 				g.add("mimc7.hashgeneric %s %s %d", r.felem(Q), ints(inp), 1+r.intn(5))
 			}
 			g.add("u.arrinfield %s", ints(inp))
+			g.add("u.elemarr %s", ints(inp))
 		}
 	}
+	g.add("u.elemarr []")
+	g.add("u.elemarr %s", ints([]*big.Int{neg(small(1)), Q, add(Q, small(1)), pow2(300), small(0)}))
 	for _, v := range bad {
 		g.add("u.infield %s", v)
 	}
